@@ -154,9 +154,9 @@ func TestC19_DecodeFirst(t *testing.T) {
 		for _, m := range muts {
 			mset.add(m)
 		}
-		r.Case(fmt.Sprintf("%s|%s|%s", c.name, class, mset.key()), len(muts) > 0 || len(cl) > 0, func() interface{} {
+		r.Case(fmt.Sprintf("%s|%s|%s", c.name, class, mset.key()), len(muts) > 0 || len(cl) > 0, sampled("decodefirst", 1, func() interface{} {
 			return map[string]interface{}{"type": c.name, "base": render(c, v), "mutations": muts, "branch": class, "bytes": fmt.Sprintf("%x", clipB(b))}
-		})
+		}))
 	})
 }
 
